@@ -11,7 +11,7 @@
 (*   - the removal itself up to the reference-count decrement,             *)
 (*   - the decrement up to (if it was the last) the removal of the root,   *)
 (*   - the removal of the root.                                            *)
-(* Line kinds: gate cd env write probe childenv bg fail skip stop ro defer deferfail *)
+(* Line kinds: gate cd env write probe childenv bg fail skip stop ro defer deferfail setupfail bgdup *)
 (* nopath condexec bgfail wait bgnamed waitnamed.  Only bg / defer / fail / wait / skip /    *)
 (* stop / gate matter                                                      *)
 (* for the shared state; the others act on the script's private state.     *)
@@ -27,7 +27,8 @@ vars == <<batch, pc, ip, verdict, bg, dstack, dran, wd, root, refCount, rootRemo
 
 N == Len(batch.scripts)
 S == 1..N
-Lines(s) == batch.scripts[s].lines
+\* Setup registers a clean-up of its own before the first line: every script starts with one deferred function
+Lines(s) == <<"defer">> \o batch.scripts[s].lines
 Name(s) == batch.scripts[s].name
 
 Init == /\ batch \in Batches
@@ -50,6 +51,10 @@ Seg(s, i, b, d) ==
       [] l = "bg"    -> Seg(s, i + 1, b + 1, d)
       [] l \in {"defer", "deferfail"} -> Seg(s, i + 1, b, Append(d, Len(d) + 1))
       [] l = "fail"  -> [ip |-> i, bg |-> b, d |-> d, v |-> "fail", gate |-> FALSE]
+      \* Setup itself fails (after registering its clean-up): no line runs, the script has failed
+      [] l = "setupfail" -> [ip |-> i, bg |-> b, d |-> d, v |-> "fail", gate |-> FALSE]
+      \* a background command under a name that is in use: one process runs, the line fails
+      [] l = "bgdup" -> [ip |-> i, bg |-> b + 1, d |-> d, v |-> "fail", gate |-> FALSE]
       \* `wait` after a background command that already exited with an unaccepted status ("bgfail") fails at once,
       \* before it would wait for the commands started later: those are still alive when the failure path begins
       [] l = "wait"  -> [ip |-> i, bg |-> b, d |-> d, v |-> "fail", gate |-> FALSE]
